@@ -57,7 +57,18 @@ def _model(chk: Check, quick: bool) -> None:
 # asynchronous servers
 
 
-async def _async_history(seed: int, udp: bool) -> dict[str, Any]:
+DIRECTED: list[dict[int, list[tuple[float, str]]]] = [
+    # a second shutdown() lands inside a slow tear-down; then somebody serves again / closes
+    {1: [(0, "serve")], 2: [(1.5, "shutdown")], 3: [(1.75, "shutdown"), (0, "serve")]},
+    {1: [(0, "serve")], 2: [(1.5, "shutdown")], 3: [(2.0, "shutdown"), (0, "close")]},
+    {1: [(0, "serve")], 2: [(1.5, "shutdown"), (0.25, "shutdown")], 3: [(1.6, "serve")]},
+    # shutdown / close land inside a slow set-up
+    {1: [(0, "serve")], 2: [(0.25, "shutdown")], 3: [(0.5, "serve")]},
+    {1: [(0, "serve")], 2: [(0.25, "close")], 3: [(1.5, "shutdown")]},
+]
+
+
+async def _async_history(seed: int, udp: bool, directed: int | None = None) -> dict[str, Any]:
     from easynetwork.exceptions import BusyResourceError, ServerAlreadyRunning, ServerClosedError
     from easynetwork.protocol import DatagramProtocol, StreamProtocol
     from easynetwork.serializers.line import StringLineSerializer
@@ -72,6 +83,19 @@ async def _async_history(seed: int, udp: bool) -> dict[str, Any]:
     lsock = socket.socket(socket.AF_INET, socket.SOCK_DGRAM if udp else socket.SOCK_STREAM)
     lsock.bind(("127.0.0.1", 0))
     init_delay = rng.choice([0, 0.5, 1.0])
+    teardown_delay = rng.choice([0, 0, 0.75, 1.25])
+    if directed is not None:
+        init_delay, teardown_delay = (1.0, 0) if directed >= 3 else (0, 1.25)
+
+    async def slow_setup_and_teardown(exit_stack: Any, server: Any) -> None:
+        await asyncio.sleep(init_delay)
+        if teardown_delay:
+            # a tear-down that takes a while: shutdown() calls issued meanwhile must still wait for the end of it
+
+            async def teardown() -> None:
+                await server.backend().ignore_cancellation(asyncio.sleep(teardown_delay))
+
+            exit_stack.push_async_callback(teardown)
 
     if udp:
         from easynetwork.lowlevel.socket import INETSocketAttribute
@@ -79,7 +103,7 @@ async def _async_history(seed: int, udp: bool) -> dict[str, Any]:
 
         class H(AsyncDatagramRequestHandler[str, str]):
             async def service_init(self, exit_stack: Any, server: Any) -> None:
-                await asyncio.sleep(init_delay)
+                await slow_setup_and_teardown(exit_stack, server)
 
             async def handle(self, client: Any) -> Any:
                 req = yield
@@ -99,7 +123,7 @@ async def _async_history(seed: int, udp: bool) -> dict[str, Any]:
 
         class HT(AsyncStreamRequestHandler[str, str]):
             async def service_init(self, exit_stack: Any, server: Any) -> None:
-                await asyncio.sleep(init_delay)
+                await slow_setup_and_teardown(exit_stack, server)
 
             async def handle(self, client: Any) -> Any:
                 req = yield
@@ -172,11 +196,15 @@ async def _async_history(seed: int, udp: bool) -> dict[str, Any]:
             except BusyResourceError:
                 ev("close_ret", a, "busy", observe=True)
 
-    plans = {a: [rng.choice(["serve", "serve", "shutdown", "close"]) for _ in range(rng.randint(1, 3))] for a in (1, 2, 3)}
+    plans: dict[int, list[tuple[float, str]]] = {
+        a: [(rng.choice([0, 0, 0.25, 0.5, 1.0, 1.5]), rng.choice(["serve", "serve", "shutdown", "close"])) for _ in range(rng.randint(1, 3))] for a in (1, 2, 3)
+    }
+    if directed is not None:
+        plans = DIRECTED[directed]
 
     async def actor(a: int) -> None:
-        for what in plans[a]:
-            await asyncio.sleep(rng.choice([0, 0, 0.25, 0.5, 1.0, 1.5]))
+        for delay, what in plans[a]:
+            await asyncio.sleep(delay)
             await do_call(a, what)
 
     tasks = [asyncio.ensure_future(actor(a)) for a in (1, 2, 3)]
@@ -208,7 +236,7 @@ async def _async_history(seed: int, udp: bool) -> dict[str, Any]:
             events[-1] = {"ev": "client_left_open", "a": 0, "out": "", "serving": False, "listening": False}
         for s_ in client_sock:
             s_.close()
-    return {"events": events, "meta": f"async {'UDP' if udp else 'TCP'} seed={seed} plans={plans} service_init={init_delay}s connected_clients={with_clients}"}
+    return {"events": events, "meta": f"async {'UDP' if udp else 'TCP'} seed={seed} plans={plans} service_init={init_delay}s teardown={teardown_delay}s connected_clients={with_clients}"}
 
 
 def _listener_extra(sock: Any) -> dict[Any, Any]:
@@ -433,10 +461,10 @@ STANDALONE = [
 ]
 
 
-def _run_one(arg: tuple[int, bool]) -> dict[str, Any]:
-    seed, udp = arg
+def _run_one(arg: tuple[int, bool, int | None]) -> dict[str, Any]:
+    seed, udp, directed = arg
     try:
-        return vloop.run(lambda: _async_history(seed, udp=udp), spin_limit=20000)  # type: ignore[no-any-return]
+        return vloop.run(lambda: _async_history(seed, udp=udp, directed=directed), spin_limit=20000)  # type: ignore[no-any-return]
     except vloop.VirtualDeadlock as exc:
         return {"events": [dict(EVD, ev="deadlock")], "meta": f"async seed={seed} VirtualDeadlock {exc}"}
 
@@ -451,7 +479,8 @@ def run(chk: Check) -> None:
     _model(chk, quick)
     from ..common import pmap
 
-    rec: list[dict[str, Any]] = pmap(_run_one, [(chk.seed * 9973 + i, i % 3 == 2) for i in range(250 if quick else 10000)])
+    rec: list[dict[str, Any]] = pmap(_run_one, [(chk.seed * 9973 + i, i % 3 == 2, None) for i in range(250 if quick else 10000)])
+    rec += [_run_one((chk.seed + k, udp, k)) for k in range(len(DIRECTED)) for udp in (False, True)]
     for sc in STANDALONE:
         rec.append(_standalone_history(sc))
     slim = [{"events": traces.uniform(t["events"], EVD)} for t in rec]
@@ -467,7 +496,7 @@ def run(chk: Check) -> None:
         for e in t["events"]:
             if e["ev"] in ("serve_ret", "close_ret"):
                 outs[e["ev"] + ":" + e["out"]] = outs.get(e["ev"] + ":" + e["out"], 0) + 1
-    chk.extra["histories"] = {"async": len(rec) - len(STANDALONE), "standalone": len(STANDALONE), "rejected": len(res.rejected), "outcomes": outs}
+    chk.extra["histories"] = {"async": len(rec) - len(STANDALONE), "directed_async": 2 * len(DIRECTED), "standalone": len(STANDALONE), "rejected": len(res.rejected), "outcomes": outs}
     chk.sample({"meta": rec[1]["meta"], "events": [(e["ev"], e["a"], e["out"], e["serving"], e["listening"]) for e in rec[1]["events"]]}, cap=3)
     for idx, pos in sorted(res.rejected.items())[:40]:
         t = rec[idx]
